@@ -48,6 +48,12 @@ namespace awkward {
     if (form_.get() == nullptr) {
       inferred_form_ = out.get()->form(true);
     }
+    if (length_ >= 0  &&  length_ < out.get()->length()) {
+      // more than was declared is acceptable, but only the declared length
+      // is the array: everything derived from a VirtualArray (negative
+      // indexes, lazy slices, iteration) counts from length()
+      return out.get()->getitem_range_nowrap(0, length_);
+    }
     return out;
   }
 
